@@ -56,6 +56,10 @@ claimed = {
    text="Bounded exhaustive model checking on the finite day line: every day of 18 boundary years and of every 11th year 1000..9999 (thorough: EVERY day 1000-01-01..9999-12-31, 3.29M days) x 3 times of day x 3 offsets, rendered through a 30-component composite picture (numeric, zero-padded, ordinal, upper/lower/title names, 3-letter abbreviations, 12-hour clock, am/pm, ISO week, day of year, [Z]/[z] forms) and compared with an independent integer civil calendar (days-from-civil arithmetic, Thursday rule); 21 boundary days x 24 hours x 2 minutes x all 113 quarter-hour offsets -1400..+1400 incl. the default ISO 8601 picture; the inverse law $toMillis($fromMillis(ms, pic, tz)) = ms through the default picture and four explicit pictures on the same days; all strings of <=4 (thorough: 5) units over malformed picture and offset alphabets; unparseable texts; and the one-clock relation ($millis/$now equal within one Eval, bracketed by the caller's clock) on 300 (thorough: 2000) evaluations in 3 forms.",
    note="Trusted: the 40-line civil-calendar arithmetic in mc/props/c19.go (self-checked against Go's time package at start-up). [F1] numbering, [w] and the default width of [f] are not compared (statement silent). Times of day other than the three sampled (plus all hours on boundary days) are not covered. The clock bracket discards samples where wall and monotonic elapsed time disagree by more than 1 ms.",
    technique="exhaustive sweep of the day line x offsets x pictures (stateless DFS) vs independent civil-calendar arithmetic and inverse laws", design="§5 C19", engine=E1),
+ "C13": dict(
+   text="Bounded exhaustive model checking: all arrays of 0..3 (thorough: 4) objects {id,k,j} with k, j over {missing,1,2,3} or {missing,a,b,B} x all sort specifications of 1-2 terms (thorough: 3) over 6 key expressions (member, second member, $-relative, sum, negation, constant) x {default,<,>}; ALL 2^n two-valued key patterns for n = 13, 14 (thorough: ..18) - every tie pattern beyond the length where an unstable library sort is still accidentally stable - sorted ascending, descending, with a constant second term and through $sort with a comparator; one foreign key value (boolean, array, object, string among numbers...) at every position for the error clause; $sort on all number/string arrays of length <=5 (6) over 3 values and with 5 comparators. Oracle on the implementation's own result: id multiset preserved, adjacent pairs ordered by the key tuple with absent keys last and per-term direction, equal tuples in input order; plus equality with a reference stable insertion sort and the predicted error class.",
+   note="Trusted: the reference sort (mc/ref/sort.go) and the direct checks in mc/props/c13.go. Arrays longer than 18 items and key domains larger than 4 values are outside the bound ('random arrays up to 200 items' of the quantifier is not claimed).",
+   technique="explicit enumeration of all small keyed arrays x sort specifications and of all tie patterns of length 13-18 (stateless DFS) with permutation/order/stability oracles", design="§5 C13", engine=E1),
 }
 pending_reason = "check not built yet in this session (planned, see DESIGN.md §5)"
 
